@@ -293,36 +293,52 @@ theorem or_opaque_example :
       absorbOr, dedupNull, hasNull, AC.apply, AC.groups, constrainKs, flatten1, applySeq, unite, dedup, dictMem, Ty.hashEq,
       Ty.beq, Obj.hashable]
 
-/-- class `nullAbsorbLeak`: `x: int | None`, `if not (p() and (p() or x is None)):` — for `p()` false
-the body runs with `x = None`, but the body is inferred `int`: the conjunction collapses to `NULL`
-and `extract_constraints` reads `x is None` back from the member values as `OR(NULL, x is None)`,
-whose inverse asserts `x is not None`. The ideal algebra narrows nothing there. -/
+/-- `liveBool` with the regenerated flag `andValueLeaks` set to `b` -/
+def liveBoolLeak (b : Bool) : BoolTable := { liveBool with andValueLeaks := b }
+
+/-- class `nullAbsorbLeak` (the code as long as the member values of an `and` expression keep the
+operands' constraint annotations): `x: int | None`, `if not (p() and (p() or x is None)):` — for `p()`
+false the body runs with `x = None`, but the body is inferred `int`: the conjunction collapses to
+`NULL` and `extract_constraints` reads `x is None` back from the member values as
+`OR(NULL, x is None)`, whose inverse asserts `x is not None`. The ideal algebra narrows nothing. -/
 theorem nullAbsorbLeak_witness :
     let b : BCond := .not (.and [.opaque 0, .or [.opaque 0, .leaf (.is .none)]])
     let V : Ty := .union [.typed C.int, .known .none]
     mem liveTable .none V = true ∧
     holdsB liveTable { bits := [false] } b .none = true ∧
-    narrowB liveTable liveBool V b true = .typed C.int ∧
-    narrowBIdeal liveTable liveBool V b true = V ∧
-    nullAbsorbLeak liveTable liveBool V b = ["nullAbsorbLeak"] := by
+    narrowB liveTable (liveBoolLeak true) V b true = .typed C.int ∧
+    narrowBIdeal liveTable (liveBoolLeak true) V b true = V ∧
+    nullAbsorbLeak liveTable (liveBoolLeak true) V b = ["nullAbsorbLeak"] := by
   have h1 : liveTable.nominalK false C.int C.none = false := by decide +kernel
   have h2 : liveTable.issub C.none C.int = false := by decide +kernel
-  have hn : narrowB liveTable liveBool (.union [.typed C.int, .known .none])
+  have h3 : (liveBoolLeak true).andValueLeaks = true := rfl
+  have hn : narrowB liveTable (liveBoolLeak true) (.union [.typed C.int, .known .none])
       (.not (.and [.opaque 0, .or [.opaque 0, .leaf (.is .none)]])) true = .typed C.int := by
     simp [narrowB, constrain, BCond.ac, BCond.cv, BCond.flatL, BCond.extL, CVal.ext, CVal.flat, AC.isNull, AC.mkOr,
-      AC.mkAnd, spliceOr, spliceAnd, absorbOr, absorbAnd, dedupNull, hasNull, AC.invert, AC.invertL, AC.apply, AC.applyL,
-      Cond.k, K.invert, constrainKs, flatten1, applySeq, applyK, applyPred, unann, Obj.same, Obj.tag, Obj.pyEq, unite,
-      dedup, dictMem]
-  have hi : narrowBIdeal liveTable liveBool (.union [.typed C.int, .known .none])
+      AC.mkAnd, spliceOr, spliceAnd, absorbOr, absorbAnd, dedupNull, hasNull, AC.invert, AC.invertL, AC.apply,
+      AC.applyL, Cond.k, K.invert, constrainKs, flatten1, applySeq, applyK, applyPred, unann, Obj.same, Obj.tag,
+      Obj.pyEq, unite, dedup, dictMem, h3]
+  have hi : narrowBIdeal liveTable (liveBoolLeak true) (.union [.typed C.int, .known .none])
       (.not (.and [.opaque 0, .or [.opaque 0, .leaf (.is .none)]])) true
         = .union [.typed C.int, .known .none] := by
     simp [narrowBIdeal, constrain, BCond.acIdeal, BCond.acIdealL, AC.isNull, AC.mkOr, AC.mkAnd, spliceOr, spliceAnd,
-      absorbOr, absorbAnd, dedupNull, hasNull, AC.invert, AC.invertL, AC.apply, AC.applyL, AC.groups, constrainKs, flatten1,
-      applySeq, unite, dedup, dictMem, Ty.hashEq, Ty.beq, Obj.hashable]
+      absorbOr, absorbAnd, dedupNull, hasNull, AC.invert, AC.invertL, AC.apply, AC.applyL, AC.groups, constrainKs,
+      flatten1, applySeq, unite, dedup, dictMem, Ty.hashEq, Ty.beq, Obj.hashable]
   refine ⟨by simp [mem, memAny, Obj.same, Obj.tag, Obj.pyEq], ?_, hn, hi, ?_⟩
   · simp [holdsB, holdsAll, holdsAny]
   · simp only [nullAbsorbLeak, hn, hi]
     simp [Ty.beq, Ty.beqList, Ty.subsetBy, Ty.memBy]
+
+/-- … and once the member values are stripped (`andValueLeaks = false`) the same input narrows
+nothing, like the ideal algebra. -/
+theorem nullAbsorbLeak_fixed :
+    narrowB liveTable (liveBoolLeak false) (.union [.typed C.int, .known .none])
+      (.not (.and [.opaque 0, .or [.opaque 0, .leaf (.is .none)]])) true
+        = .union [.typed C.int, .known .none] := by
+  have h3 : (liveBoolLeak false).andValueLeaks = false := rfl
+  simp [narrowB, constrain, BCond.ac, BCond.cv, BCond.flatL, BCond.extL, CVal.ext, CVal.flat, AC.isNull, AC.mkOr,
+    AC.mkAnd, spliceOr, spliceAnd, absorbOr, absorbAnd, dedupNull, hasNull, AC.invert, AC.invertL, AC.apply,
+    AC.applyL, AC.groups, constrainKs, flatten1, applySeq, unite, dedup, dictMem, Ty.hashEq, Ty.beq, Obj.hashable, h3]
 
 /-! ## Constraint algebra -/
 
